@@ -46,3 +46,20 @@ Theorem C06_nonvacuous :
   in_range ILong (2^40) = true /\ n2_pair IInt ILong = false /\ conv IInt ILong (2^40) = Abort
   /\ conv IUInt ILong 4294967295 = Ok 4294967295 /\ abi_ok abi_lp32 = true.
 Proof. exact conv_hyps_satisfiable. Qed.
+
+(* the source of the conversion is a location in SANDBOX memory (a load, a call result or a callback argument read in place):
+   the value that is range-checked is the value that is converted, whatever the sandbox writes there afterwards
+   (fix: commit for D21); reading the location once per check and again for the cast is refuted: the application gets a
+   value no read ever returned in range *)
+Theorem C06_source_in_sandbox_memory : forall to from f,
+  in_range from (f 0%nat) = true -> n2_pair to from = false ->
+  conv_cell to from f = (if in_range to (f 0%nat) then Ok (f 0%nat) else Abort).
+Proof. exact conv_cell_correct. Qed.
+Print Assumptions C06_source_in_sandbox_memory.
+Theorem C06_source_reread_before_fix_refuted :
+  let f := fun i : nat => match i with O => -32768 | _ => -32769 end in
+  (forall i, in_range IInt (f i) = true) /\
+  conv_cell_reread IShort f = Ok 32767 /\
+  conv_cell IShort IInt f = Ok (-32768) /\ conv IShort IInt (-32769) = Abort.
+Proof. exact conv_cell_reread_refuted. Qed.
+
